@@ -54,19 +54,25 @@ Record st := St {
   pos : Z;                          (* _edit_pos *)
   pref : option (prefcol * Z);      (* pref_col_maxcol: None = (None, None) *)
   shiftv : bool;                    (* _shift_view_to_cursor *)
+  rcache : option (Z * bool);       (* CanvasCache: (maxcol, focus) of the canvas returned by the last
+                                       render if nothing called _invalidate() since (the caller keeps
+                                       only the most recent canvas alive, as a screen does) *)
   multiline : bool;
   allow_tab : bool;
   mask : option Z;
   var : variant }.
 
+(* with_pos / with_text are only used where the code calls _invalidate(): the render cache is dropped *)
 Definition with_pos (s : st) (p : Z) (pf : option (prefcol * Z)) : st :=
-  St (caption s) (text s) p pf (shiftv s) (multiline s) (allow_tab s) (mask s) (var s).
+  St (caption s) (text s) p pf (shiftv s) None (multiline s) (allow_tab s) (mask s) (var s).
 Definition with_text (s : st) (t : list Z) : st :=
-  St (caption s) t (pos s) (pref s) (shiftv s) (multiline s) (allow_tab s) (mask s) (var s).
+  St (caption s) t (pos s) (pref s) (shiftv s) None (multiline s) (allow_tab s) (mask s) (var s).
 Definition with_pref (s : st) (pf : option (prefcol * Z)) : st :=
-  St (caption s) (text s) (pos s) pf (shiftv s) (multiline s) (allow_tab s) (mask s) (var s).
+  St (caption s) (text s) (pos s) pf (shiftv s) (rcache s) (multiline s) (allow_tab s) (mask s) (var s).
 Definition with_shiftv (s : st) (b : bool) : st :=
-  St (caption s) (text s) (pos s) (pref s) b (multiline s) (allow_tab s) (mask s) (var s).
+  St (caption s) (text s) (pos s) (pref s) b (rcache s) (multiline s) (allow_tab s) (mask s) (var s).
+Definition with_rcache (s : st) (c : option (Z * bool)) : st :=
+  St (caption s) (text s) (pos s) (pref s) (shiftv s) c (multiline s) (allow_tab s) (mask s) (var s).
 
 Definition clampz (v lo hi : Z) : Z := Z.min (Z.max v lo) hi.
 
@@ -490,13 +496,19 @@ Definition step (s : st) (e : event) : outcome :=
         end
       else (s, [], Ok (RBool false))
   | ERender focus w lay =>
-      (* Edit.render: _shift_view_to_cursor = bool(focus); Text.render draws
+      (* widget.cached_render: a canvas cached for (size, focus) is returned as it is and
+         Edit.render does not run (the flag _shift_view_to_cursor keeps its value); the cached
+         canvas has the rows and the cursor a fresh render would compute, because any change of
+         text or offset invalidates the cache.
+         Edit.render: _shift_view_to_cursor = bool(focus); Text.render draws
          get_line_translation(maxcol); with focus the cursor is get_cursor_coords(size) *)
+      let hit := match rcache s with Some (w', f') => (w' =? w) && Bool.eqb f' focus | None => false end in
       let s1 := with_shiftv s focus in
       let rows := zlen (get_line_translation s1 w lay) in
       if focus then
-        let '(s2, (x, y)) := get_cursor_coords s1 w lay in (s2, [], Ok (RCoords x y rows))
-      else (s1, [], Ok (RRows rows))
+        let '(s2, (x, y)) := get_cursor_coords s1 w lay in
+        (if hit then s else with_rcache s2 (Some (w, focus)), [], Ok (RCoords x y rows))
+      else (if hit then s else with_rcache s1 (Some (w, focus)), [], Ok (RRows rows))
   | EPrefCol w lay =>
       let '(s1, pc) := get_pref_col s w lay in (s1, [], Ok (RPref pc))
   | ESetPos p => (set_edit_pos s p, [], Ok RUnit)
@@ -513,7 +525,7 @@ Fixpoint run (s : st) (es : list event) : st * list (st * list sig * result ret)
 
 (* Edit.__init__: set_edit_text(edit_text); set_edit_pos(edit_pos or len); _shift_view_to_cursor = False *)
 Definition init (cap txt : list Z) (p : option Z) (ml tab : bool) (mk : option Z) (v : variant) : st :=
-  let s := St cap txt 0 None false ml tab mk v in
+  let s := St cap txt 0 None false None ml tab mk v in
   set_edit_pos s (match p with None => zlen txt | Some q => q end).
 
 End Model.
